@@ -36,9 +36,12 @@ type pool struct {
 // dressFrom draws how this pool's requests are dressed.
 func (p *pool) dressFrom(rt *rapid.T) { p.dress = lab.DrawDressPlan(rt) }
 
-func (p *pool) nextReq() *http.Request {
+func (p *pool) nextReq() *http.Request { return p.nextReqFrom("10.0.0.1:4000") }
+
+// nextReqFrom is nextReq for a given client address (what the rate limiter keys on).
+func (p *pool) nextReqFrom(remote string) *http.Request {
 	p.nPick++
-	return p.dress.At(p.nPick).Request("/", "10.0.0.1:4000")
+	return p.dress.At(p.nPick).Request("/", remote)
 }
 
 // eff is the statement's "weights below 1 count as 1".
@@ -62,7 +65,19 @@ func rrWeights(rt *rapid.T, n int) []int {
 }
 
 func newPool(strategy string, weights []int) (*pool, error) {
+	return newPoolWith(strategy, weights, nil)
+}
+
+// newPoolWith is newPool with the rest of the configuration (circuit breaker, rate limit, passive
+// health checks, ...) filled in by configure before the balancer is built.
+func newPoolWith(strategy string, weights []int, configure func(*config.Config)) (*pool, error) {
 	cfg := lab.BaseConfig(strategy, weights)
+	if configure != nil {
+		configure(cfg)
+		if err := cfg.Validate(); err != nil {
+			return nil, fmt.Errorf("generated configuration rejected: %w", err)
+		}
+	}
 	lb, err := loadbalancer.NewLoadBalancer(cfg)
 	if err != nil {
 		return nil, err
